@@ -170,6 +170,21 @@ def receiver(rec, tid, port, pname, plan):
                         rec.exc(tid, 'receive', pname, exc)
                         continue
                     rec.ret(tid, 'receive', pname, m)
+            elif step[0] == 'iterate':
+                # "for msg in port": receive() in a loop; the consumer leaves after step[1] messages
+                got = 0
+                rec.call(tid, 'receive', pname)
+                try:
+                    for m in port:
+                        rec.ret(tid, 'receive', pname, m)
+                        got += 1
+                        if got >= step[1]:
+                            break
+                        rec.call(tid, 'receive', pname)
+                except sched.SchedAbort:
+                    raise
+                except Exception as exc:
+                    rec.exc(tid, 'receive', pname, exc)
             elif step[0] == 'iter_pending_first':
                 # take one message from iter_pending() and abandon the generator
                 rec.call(tid, 'iter_pending', pname)
@@ -557,9 +572,27 @@ class P4cFaninTwoReceivers(Program):
                 receiver(rec, 2, m, 'multi', [('poll', 2, 1)])]
 
 
+class P2bIterators(Program):
+    """Two consumers that iterate over the port (for msg in port) and leave after their share."""
+    name = 'P2b-ioport-iterating-receivers'
+
+    def build(self, sc, rec):
+        self.wire = Wire()
+        i = self.wrap(sc, WireIn('in', wire=self.wire), 'in')
+        o = self.wrap(sc, WireOut('out', wire=self.wire), 'out')
+        p = IOPort(i, o)
+        p._lock = self.wraplock(sc, p._lock, 'io')
+        self.ports = {'io': p}
+        self.keep = (i, o)
+        self.wires = [self.wire]
+        self.route = lambda pname: ['io']
+        return [sender(rec, 0, p, 'io', 0, (0, 1, 2), (0, 1, 3)),
+                receiver(rec, 1, p, 'io', [('iterate', 2)]), receiver(rec, 2, p, 'io', [('iterate', 1)])]
+
+
 PROGRAMS = [P1Wire, P2Echo, P3IOPort, P4Fanout, P4Fanin, P5IterPending, P6ParserQueue, P6bParserQueuePollers,
             P7SocketPair, P6cParserQueueLong, P8ParseAll, P9PanicVsSend, P6dTwoQueues, P6eInstr, P4cFaninTwoReceivers,
-            P3bIOPortFailingDevice, P4dFanoutMemberCloses, P1bSharedStateDevice]
+            P3bIOPortFailingDevice, P4dFanoutMemberCloses, P1bSharedStateDevice, P2bIterators]
 
 
 class LockShim:
